@@ -621,8 +621,8 @@ func TestC07(t *testing.T) {
 	}
 	caseNo := 0
 	rapid.Check(t, func(rt *rapid.T) {
-		if worldsMade >= maxWorlds() {
-			rt.Skip("world budget used up")
+		if outOfBudget(st) {
+			return
 		}
 		worldsMade++
 		caseNo++
